@@ -3,6 +3,15 @@
 import json, os, glob
 HERE = os.path.dirname(os.path.dirname(os.path.abspath(__file__)))
 CHECKS = {
+ "C02": dict(cat="exploration", tech="bounded-exhaustive enumeration of condition trees x spellings x detection-name sets on the real parser, truth-table comparison with the generating tree",
+             text="All condition trees up to the operator bound over plain names, over a pool of keyword-like names and over selector leaves (quantifier x pattern) for several detection-name sets, each in up to four spellings; SigmaCondition(...).parsed is evaluated under all 2^n assignments and compared with the generating tree (the printer is the reference, no second parser).",
+             note="detections are opaque atoms; zero-match selectors not judged; expressions beyond the bound not explored", ref="§3 C02"),
+ "C04": dict(cat="exploration", tech="bounded-exhaustive enumeration of payloads x modifier chains x surroundings on the real modifiers, Python base64/codecs as oracle",
+             text="Every payload up to the length bound over a 6-symbol alphabet (1-4 byte UTF-8 characters, surrogate pair, escaped wildcard) through 11 chains; base64offset completeness and soundness over every prefix/suffix length 0..5 with all spill-bit patterns of the adjacent bytes.",
+             note="byte meaning of a value = UTF-8 of its literal characters; filler bytes fixed", ref="§3 C04"),
+ "C05": dict(cat="exploration", tech="bounded-exhaustive enumeration of strings x target escaping configurations on the real SigmaString/TextQueryBackend, decoded by a reference decoder; regex forms executed on every subject string",
+             text="All strings up to the length bound over an alphabet with backslash, wildcards, quotes and configured metacharacters: parse vs reference parser, to_plain round trip, convert_value_str under 300+ escaping configurations decoded with the configuration's own (most lenient) rules, to_regex and the three RegexTransformation methods compared with a glob matcher on every subject, field-name quoting over all field settings.",
+             note="lenient target decoding rules; Python re trusted; strings beyond the length bound not explored", ref="§3 C05"),
  "C18": dict(cat="exploration", tech="bounded-exhaustive enumeration of networks on the real code; IPv4 set equality by interval arithmetic, IPv6 host-family completeness",
              text="Every IPv4 prefix length x boundary-octet base: expansion equals the network exactly (interval arithmetic, disjointness, non-emptiness); every IPv6 prefix length x group-set base x host family: canonical host text is matched; native template fields; invalid strings rejected. Exhaustive within the stated boundary sets.",
              note="ipaddress trusted for canonical text; addresses outside the boundary sets not covered", ref="§3 C18"),
